@@ -102,20 +102,20 @@ def main():
                  ['secretstore/zz_verif_env.go', 'secretstore/zz_verif_rand.go', 'C09/zz_verif_c09_coop.go'],
                  installers=[crypto.install, crypto.install_proto, c02.install], init_pkgs=[MOD + '/pkg/errcode'], prelude_pkgname='secretstore')
     chk2.load([P + 'VerifC09Coop', P + 'VerifC09FirstUse', P + 'VerifC09Replay'])
-    cgrid = [(2, 1, 1, 1), (2, 1, 0, 1)] if t == 'quick' else [(2, 1, 1, 2), (2, 1, 0, 2), (2, 2, 1, 1)]
+    cgrid = [(2, 1, 1, 1), (2, 1, 0, 1)] if t == 'quick' else [(2, 1, 1, 2), (2, 1, 0, 1)]
     kj = []
     for (sn, per, same, pre) in cgrid:
-        K = (6 if same == 1 else 3) if t == 'quick' else 14
+        K = 6 if same == 1 else 3
         for i in range(K):
             kj.append(Job(P + 'VerifC09Coop', (sn, per, same), cfg={'timeout_ms': 60000, 'unwind': 12, 'dec_as_term': True}, installers=[functools.partial(_coop_inst, pre)],
                           shard=(i, K), max_paths=400000, label='VerifC09Coop(%d,%d,%d)[pre<=%d]#%d/%d' % (sn, per, same, pre, i, K)))
-    RK = 2 if t == 'quick' else 8
-    rpre = 1 if t == 'quick' else 2
+    RK = 2
+    rpre = 1
     for i in range(RK):
-        kj.append(Job(P + 'VerifC09Replay', ((1, 1) if t == 'quick' else (2, 1)), cfg={'timeout_ms': 60000, 'unwind': 12, 'dec_as_term': True}, installers=[functools.partial(_coop_inst, rpre)],
+        kj.append(Job(P + 'VerifC09Replay', (1, 1), cfg={'timeout_ms': 60000, 'unwind': 12, 'dec_as_term': True}, installers=[functools.partial(_coop_inst, rpre)],
                       shard=(i, RK), max_paths=400000, label='VerifC09Replay[pre<=%d]#%d/%d' % (rpre, i, RK)))
     for ws in ((0,) if t == 'quick' else (0, 1)):
-        fpre = 2 if t == 'quick' else 3
+        fpre = 2
         FK = 4
         for i in range(FK):
             kj.append(Job(P + 'VerifC09FirstUse', (ws,), cfg={'timeout_ms': 60000, 'unwind': 12, 'dec_as_term': True}, installers=[functools.partial(_coop_inst, fpre)],
